@@ -6,28 +6,118 @@ package protocol
 //@ spec fn bytes_eq(Slice, Slice) Bool
 
 //@ pred fin(h *MultiHandler) := h.err != nil || h.result != nil
-//@ pred hinv(h *MultiHandler) := h.out != nil && h.currentRound != nil && (closed(h.out) == fin(h)) && !(h.err != nil && h.result != nil)
+//@ pred hshape(h *MultiHandler) := h.out != nil && h.currentRound != nil && h.rounds != nil && h.broadcastHashes != nil && forall(k, round.Number, indom(h.rounds, k) ==> h.rounds[k] != nil)
+//@ pred hinv(h *MultiHandler) := hshape(h) && (closed(h.out) == fin(h)) && !(h.err != nil && h.result != nil)
+//@ pred hopen(h *MultiHandler) := hshape(h) && !closed(h.out) && h.err == nil && h.result == nil
+
+// A StartFunc either fails or yields the first round of a session (refined by the start closures of each protocol).
+//@ functype StartFunc
+//@   modifies shared
+//@   ensures result1 == nil ==> result0 != nil
 
 //@ guarded_by[C17] MultiHandler.mtx: currentRound, rounds, err, result, messages, broadcast, broadcastHashes
 //@ lockinv[C17] MultiHandler.mtx := hinv(self)
 
 //@ func (*MultiHandler).Result
+//@   chansafe[C17]
 //@   requires h != nil && !excl(h.mtx)
 //@   ensures[C17] !excl(h.mtx)
 //@   ensures[C17] !(result0 != nil && result1 != nil)
+//@   ensures[C17] atlock(fin(h)) ==> (result0 != nil || atlock(h.err) != nil)
 
 //@ func (*MultiHandler).Listen
+//@   chansafe[C17]
 //@   requires h != nil && !excl(h.mtx)
 //@   ensures[C17] !excl(h.mtx)
 
 //@ func (*MultiHandler).Stop
+//@   chansafe[C17]
+//@   requires h != nil && !excl(h.mtx)
+//@   ensures[C17] !excl(h.mtx)
+//@   ensures[C17] fin(h) && closed(h.out)
+//@   ensures[C17] atlock(fin(h)) ==> (h.err == atlock(h.err) && h.result == atlock(h.result))
+//@   ensures[C17] !atlock(fin(h)) ==> h.err != nil
+
+//@ func (*MultiHandler).CanAccept
+//@   chansafe[C17]
 //@   requires h != nil && !excl(h.mtx)
 //@   ensures[C17] !excl(h.mtx)
 
+//@ func (*MultiHandler).canAccept
+//@   chansafe[C17]
+//@   requires h != nil && excl(h.mtx) && hshape(h)
+//@   modifies nothing
+//@   ensures result ==> msg != nil
+
+//@ func (*MultiHandler).Accept
+//@   chansafe[C17]
+//@   requires h != nil && !excl(h.mtx)
+//@   ensures[C17] !excl(h.mtx)
+//@   ensures[C17] atlock(fin(h)) ==> (h.err == atlock(h.err) && h.result == atlock(h.result))
+
 //@ func (*MultiHandler).abort
-//@   requires h != nil && excl(h.mtx) && h.out != nil && !closed(h.out) && h.currentRound != nil
+//@   chansafe[C17]
+//@   requires h != nil && excl(h.mtx) && hshape(h) && !closed(h.out)
 //@   modifies MultiHandler.err, chans, Error.*, Message.*
 //@   ensures[C17] closed(h.out)
 //@   ensures[C17] err != nil ==> h.err != nil
 //@   ensures[C17] err == nil ==> h.err == old(h.err)
-//@   ensures[C17] h.out == old(h.out)
+
+//@ func (*MultiHandler).duplicate
+//@   chansafe[C17]
+//@   requires h != nil && excl(h.mtx) && msg != nil
+//@   modifies nothing
+
+//@ func (*MultiHandler).store
+//@   chansafe[C17]
+//@   requires h != nil && excl(h.mtx) && msg != nil
+//@   modifies heap:MV_map_internal_round_Number_map_pkg_party_ID_ppkg_protocol_Message, heap:MD_map_pkg_party_ID_ppkg_protocol_Message, heap:MV_map_pkg_party_ID_ppkg_protocol_Message
+
+//@ func (*MultiHandler).verifyBroadcastMessage
+//@   chansafe[C17]
+//@   requires h != nil && excl(h.mtx) && msg != nil && hshape(h)
+//@   modifies shared
+//@   ensures hshape(h)
+
+//@ func (*MultiHandler).verifyMessage
+//@   chansafe[C17]
+//@   requires h != nil && excl(h.mtx) && msg != nil && hshape(h)
+//@   modifies shared
+//@   ensures hshape(h)
+
+//@ func (*MultiHandler).receivedAll
+//@   chansafe[C17]
+//@   requires h != nil && excl(h.mtx) && hshape(h)
+//@   modifies shared
+//@   ensures hshape(h)
+
+//@ func (*MultiHandler).checkBroadcastHash
+//@   chansafe[C17]
+//@   requires h != nil && excl(h.mtx) && hshape(h)
+//@   modifies nothing
+
+//@ func getRoundMessage
+//@   chansafe[C17]
+//@   requires msg != nil && r != nil
+//@   modifies shared
+
+//@ func (*MultiHandler).finalize
+//@   chansafe[C17]
+//@   requires h != nil && excl(h.mtx) && hopen(h)
+//@   modifies all
+//@   ensures[C17] hinv(h) && excl(h.mtx)
+//@   loop 1: invariant !closed(h.out)
+//@   loop 1: invariant h.err == nil && h.result == nil
+//@   loop 1: invariant hshape(h)
+//@   loop 2: invariant hopen(h)
+//@   loop 3: invariant hopen(h)
+
+//@ func NewMultiHandler
+//@   chansafe[C17]
+//@   requires create != nil
+//@   ensures[C17] result1 == nil ==> (result0 != nil && hinv(result0))
+//@   ensures[C17,C20] result1 != nil ==> result0 == nil
+
+//@ func newQueue
+//@   chansafe[C17]
+//@   modifies heap:MD_map_pkg_party_ID_ppkg_protocol_Message, heap:MV_map_pkg_party_ID_ppkg_protocol_Message
